@@ -8,6 +8,7 @@ import (
 	"fmt"
 	"io"
 	"strconv"
+	"strings"
 	"time"
 
 	"github.com/mithrandie/csvq/lib/json"
@@ -76,6 +77,10 @@ func encodeCSV(ctx context.Context, fp io.Writer, view *View, options option.Exp
 			str, effect, _ := ConvertFieldContents(view.RecordSet[i][j][0], false, options.ScientificNotation)
 			quote := false
 			if options.EncloseAll && (effect == option.StringEffect || effect == option.DatetimeEffect) {
+				quote = true
+			}
+			if !quote && strings.ContainsAny(str, "\r\n") {
+				// a line break inside a field must be enclosed, or it would end the record
 				quote = true
 			}
 			fields[j] = csv.NewField(str, quote)
